@@ -22,7 +22,7 @@ CHECKS = {
             "Held-on-observed: times 0 = t_0 < ... = T, running jump sums and running diffusion sums for 2..13 product dates, step cap incl. after the last jump and on paths without jump, original points kept, inserted points repeat the previous value, fine/coarse aligned, coarse component from taps on the coupling maps, every step carries a Brownian increment; direct, 1-d chain, copula chain, 1-d coupling, copula coupling.",
             "Infinite-variation copulas in dimension 2; small grids.", "3/C15"),
     "C05": ("sequential reference model fed by the event log of a scripted coupling process (unique-id samples) run through the real multilevel engine; record-only wrappers on Statistic.add (fresh row below the allocated size); payoff dimension 1..3 and 0..2 regression control variates with an independent regression as oracle",
-            "Held-on-observed: Nl, stored rows, price, ml, vl, level means/variances, cl, cost, kurtosis recomputed from exactly the logged samples over adaptive histories (late levels, multi-pass) and the fixed-level variant, with and without control variates, scalar and vector payoffs.",
+            "Held-on-observed: Nl, stored rows, price, ml, vl, level means/variances, cl, cost, kurtosis recomputed from exactly the logged samples over adaptive histories (late levels, multi-pass) and the fixed-level variant, with and without control variates, scalar and vector payoffs, scripted allocation histories.",
             "One process or a pool of two workers; control samples that are (nearly) degenerate at a level are skipped and counted; budget-limited runs are inconclusive.", "3/C05"),
     "C06": ("(a) contract on the real allocation function with the bias tolerance of the stopping test observed by bisection; the stopping test itself against the stated three-level rule on vectors of 1..7 level means; (b) recorded-event checker over runs of the real engine (one process or two workers) with wrapped criteria / allocation callables and a tap on MLMCStatistics.add",
             "Held-on-observed: sum V_l/N_l + T^2 <= rmse^2 on vectors with dynamic range 1e-12..1e6 and zeros; runs never exceed the maximum level (whole number or not), return only on a true criteria (re-evaluated against the stated rule, with the configured rate) or at the maximum level with every level within the 1% rule; reported N_l = samples that reached the statistics; default-configuration histories.",
@@ -52,7 +52,7 @@ CHECKS = {
             "Held-on-observed: all representations (native, ZERO, CENTER, ONEONE, TILDE) x families x grids x levels x methods; copula margins with a-priori slack.",
             "Truncated process = drift fixed in the declared representation, nu restricted to the grid bounds; central-cell oracle on uniform grids; tolerance of the small-jump moments = the accuracy the code requests from its own quadrature.", "3/C04"),
     "C02": ("exact black-box measurement of the map uniform -> state of every sampler (recursive bisection to one ulp; integer bisection over the 2^32 words for the table method), scripted variate sources for the batch call, replay of the same uniforms under 4 orders / fresh samplers / deep and dill copies of a used sampler",
-            "Held-on-observed: pre-image lengths vs target vector (raw) or independent quadrature cell masses (chains) for all 7 sampler classes incl. n-d; exact never-origin / never-outside / never-zero-probability monitors; batch == single-uniform; history independence.",
+            "Held-on-observed (3 known findings: the single uniform 0.0 on one-sided measures / dependent copulas): pre-image lengths vs target vector (raw) or independent quadrature cell masses (chains) for all 7 sampler classes incl. n-d; exact never-origin / never-outside / never-zero-probability monitors; batch == single-uniform; history independence.",
             "Assumes no hidden piece between equal neighbours below the probe spacing; a set of uniforms of measure <= 1e-12 next to 1 is exempt.", "3/C02"),
     "C01": ("record-only hooks on the sampling factory + exact black-box law measurement of on-the-fly samplers; oracle: quadrature of the model density on harness-recomputed cells, corner-sum Levy-copula mass on quadrature tail integrals; second model on the same grid, chain rebuilt after refining in place, model object used by an earlier chain, measure already restricted",
             "Held-on-observed: every state rate handed to / realised by every accepted sampling method compared with an independent mass, on all grid constructors, levels 0..5, 1-d families and 2-d/3-d copulas; tiling and intensity monitors.",
